@@ -29,4 +29,25 @@ structure EpochNotifierPerBlock where
   Config : ConfigEpochNotifierPerBlock := {}
   deriving Repr
 
+/-- the fields of a certificate header that the start-up reconciliation reads (`agglayertypes.CertificateHeader` and the
+    node's own `types.CertificateHeader` both have them); `Status` = the iota value of the status constant -/
+structure CertHdr where
+  Height : Nat := 0
+  Status : Nat := 0
+  CertificateID : Nat := 0
+  deriving Repr, DecidableEq
+
+/-- `initialStatus` (aggsender/statuschecker/initial_state.go): a pointer to a record is an `Option` -/
+structure initialStatus where
+  SettledCert : Option CertHdr := none
+  PendingCert : Option CertHdr := none
+  LocalCert : Option CertHdr := none
+  deriving Repr, DecidableEq
+
+/-- what `process` returns: `(&initialStatusResult{action, cert}, nil)` or `(nil, err)` -/
+inductive Ret where
+  | result (action : Nat) (cert : Option CertHdr)
+  | error
+  deriving Repr, DecidableEq
+
 end Aggkit.GenPrelude
